@@ -1,6 +1,8 @@
 """C03 — the model's inputs and outputs are exactly what was requested.
 
-tie G : translator/renames_ir.py (the IR of `_temporary_renames` the front-end model runs through)
+tie G : translator/renames_ir.py (the IR of `_temporary_renames` the front-end model runs through),
+         translator/build_front_ir.py (the statement list of `build` itself — guards, exception classes,
+         the with-block, the drop_unused_inputs option — executed by the driver; digests of the covered functions)
 proof  : Props/C03.lean over Model/Front.lean (front end of `spox.build` + `discover`'s argument sets)
 tie H  : random programs with nested If/Loop bodies x random requests, run on the real `spox.build`
          and on the model (driver key C03); graph inputs/outputs compared as ordered
@@ -97,8 +99,8 @@ def oracle_inproc(prog, req, env=None, with_values=True, feed_seed=0):
         [tuple(x) for x in exp[1]], [tuple(x) for x in exp[2]]
     ):
         feeds = feeds_for(prog, req, feed_seed)
-        want = lf.evaluate(prog, feeds, [i for _, i in req["outputs"]])
         try:
+            want = lf.evaluate(prog, feeds, [i for _, i in req["outputs"]])  # ValueError: custom-domain operators have no semantics
             res = lf.run_ort(got[1], {n: feeds[i] for n, i in req["inputs"]})
             values = (want, res)
         except Exception as e:  # noqa: BLE001 - a runtime refusing the model is not C03's business
@@ -182,15 +184,16 @@ def run(ck: core.Check):
         ck.cov["generated_renames_ir"] = renames_ir.generate()["ir"]
     except Exception as e:  # noqa: BLE001
         ck.broken("translator", "translator/renames_ir.py could not read src/spox/_public.py", f"{type(e).__name__}: {e}")
+    changed = lf.covered_code_changes(ck)
     ck.lean(["SpoxModel.Props.C03"], audit="SpoxModel.Audit.C03")
     if ck.thorough:
         ck.leanchecker(["SpoxModel.Props.C03"])
 
     rng = ck.rng
-    n_prog = ck.pick(500, 3000)
+    n_prog = ck.pick(900 if changed else 500, 3000)  # code the model covers was edited: look harder
     cases = []  # (prog, env, [reqs])
     for _ in range(n_prog):
-        prog = lf.gen_program(rng)
+        prog = lf.gen_program(rng, domains=(rng.random() < 0.2))  # a fifth with inlined custom-domain models (no runtime semantics)
         reqs = [lf.gen_request(rng, prog, allow_dup=(rng.random() < 0.15)) for _ in range(3)]
         if rng.random() < 0.3:
             odd = lf.gen_odd_request(rng, prog)
@@ -256,9 +259,18 @@ def run(ck: core.Check):
                     stats["value_checks"] += 1
                 if req["drop"] and len(exp[1]) < len(req["inputs"]):
                     stats["dropped_some"] += 1
-                for a, dep in lf.nesting_of_use(prog, [i for _, i in req["outputs"]]).items():
+                nest = lf.nesting_of_use(prog, [i for _, i in req["outputs"]])
+                for a, dep in nest.items():
                     if dep > 0:
                         stats["nested_only_depth"][dep] = stats["nested_only_depth"].get(dep, 0) + 1
+                        if req["drop"] and dep >= 2:
+                            stats["drop_with_input_read_only_at_depth_ge_2"] = stats.get("drop_with_input_read_only_at_depth_ge_2", 0) + 1
+                # how the surviving inputs are read: only as a control-flow operand (If condition, Loop trip
+                # count / condition / state, Scan input), only as a body result, ...
+                for a, ks in lf.use_kinds(prog, [i for _, i in req["outputs"]]).items():
+                    if "operand" not in ks and "output" not in ks:
+                        tag = "+".join(sorted(ks)) + (":drop" if req["drop"] else "") + (":nested" if nest.get(a, 0) > 0 else "")
+                        stats.setdefault("read_only_as", {})[tag] = stats.setdefault("read_only_as", {}).get(tag, 0) + 1
             nontrivial = len(req["inputs"]) >= 2 or req["kind"] != "plain"
             ck.count(("req", json.dumps([lf.to_objs(prog), req["inputs"], req["outputs"], req["drop"]])) if nontrivial else None)
             ck.sample({"request": req, "outcome": oc, "expected": exp if exp is None else exp[0]}, 4)
@@ -324,7 +336,9 @@ def run(ck: core.Check):
     ck.exhaustive = False
     ck.rule = (
         "seeded-random abstract programs (1-6 arguments of random element type/rank/constant, symbolic and unknown "
-        "dims; up to 8 top-level values; If/Loop bodies nested to depth 3 using outer values and arguments directly) "
+        "dims; up to 8 top-level values; If/Loop/Scan bodies nested to depth 3 using outer values and arguments directly; "
+        "arguments read only as control-flow operands - If condition, Loop trip count / condition / state, Scan input - "
+        "or only as body results, at every depth) "
         "x 3 requests each (random dictionary orders and names, unused / dropped / missing arguments, non-argument "
         "inputs, non-Var inputs and outputs, pass-through outputs, one Var under two keys, both flag values); "
         "non-trivial = at least 2 inputs or an irregular request; distinct by (program, request)"
